@@ -277,15 +277,18 @@ def _f65(ctx, mdl, large, sweep):
         for q, name, tag, atom, v in it.definitions:
             tags.setdefault(tag if isinstance(tag, str) else tag[0], []).append(tag)
         scaled = path_sign(it, ch['RC'] - 1)
-        facts = {'scaled': scaled, 'tags': tags}
+        # equalities this path knows (e.g. rx0 == ry0 on a circular branch): every comparison below is made modulo them
+        sub = dict(getattr(it.trace, 'subst', None) or {})
+        sb = (lambda x: to_rat(x).subst(sub)) if sub else (lambda x: x)
+        facts = {'scaled': scaled, 'tags': tags, 'subst': sub}
         for t, var in ch['variants'].items():
             if t[0] == (scaled == frozenset('+')):
                 sgn, key, _ = __import__('svtstatic.interp', fromlist=['x'])._canon_diff(var['RAD'])
                 facts[('close',) + t] = it.trace.signs.get('close:' + key)
-                facts[('u1im',) + t] = path_sign(it, var['U1c'].imag())
-                facts[('u1re',) + t] = path_sign(it, var['U1c'].real())
-                facts[('det',) + t] = path_sign(it, var['DET'])
-                facts[('dot',) + t] = path_sign(it, var['DOT'])
+                facts[('u1im',) + t] = path_sign(it, sb(var['U1c'].imag()))
+                facts[('u1re',) + t] = path_sign(it, sb(var['U1c'].real()))
+                facts[('det',) + t] = path_sign(it, sb(var['DET']))
+                facts[('dot',) + t] = path_sign(it, sb(var['DOT']))
         facts['signs'] = dict(it.trace.signs)
         return o, facts
 
@@ -295,6 +298,16 @@ def _f65(ctx, mdl, large, sweep):
     def judge(v):
         o, facts = v
         tags = facts['tags']
+        sub = facts.get('subst') or {}
+
+        def sb(x):
+            try:
+                return to_rat(x).subst(sub) if sub else x
+            except Exception:
+                return x
+
+        def de(a, b):
+            return decide_equal(sb(a), sb(b))
         probs4, probs5 = [], []
         if 'z1' not in tags or 'rc' not in tags:
             return None, "x1'/radius_check were not recognised as locals of _parameterize (tags seen: %s)" % sorted(tags)
@@ -319,7 +332,7 @@ def _f65(ctx, mdl, large, sweep):
         # radius
         var0 = ch['variants'][(scaled, False)]
         exp_radius = var0['rx'] + I * var0['ry'] if scaled else ch['rx0'] + I * ch['ry0']
-        ok, d = decide_equal(o.attrs['radius'], exp_radius)
+        ok, d = de(o.attrs['radius'], exp_radius)
         if ok is not True:
             probs4.append('stored radius: ' + d)
         # the derived parameterisation does not re-write the constructor's own state: end points, rotation and the two
@@ -327,7 +340,7 @@ def _f65(ctx, mdl, large, sweep):
         for attr, want in (('start', ch['S']), ('end', ch['E']), ('rotation', ch['rot']), ('phi', ch['rot'] * PI / 180), ('rot_matrix', ch['rotm'])):
             if attr in o.attrs:
                 try:
-                    ok, d = decide_equal(o.attrs[attr], want)
+                    ok, d = de(o.attrs[attr], want)
                 except Exception:
                     ok, d = None, ''
                 if ok is False:
@@ -339,7 +352,7 @@ def _f65(ctx, mdl, large, sweep):
         matched = None
         last = ''
         for t in cands:
-            ok, d = decide_equal(o.attrs['center'], ch['rotm'] * ch['variants'][t]['cp'] + (ch['S'] + ch['E']) / 2)
+            ok, d = de(o.attrs['center'], ch['rotm'] * ch['variants'][t]['cp'] + (ch['S'] + ch['E']) / 2)
             if ok is True:
                 matched = t
                 break
@@ -347,7 +360,7 @@ def _f65(ctx, mdl, large, sweep):
         if matched is None:
             # does it match the *other* radical choice?  then the guard is the problem
             other = [(scaled, True), (scaled, False)]
-            hit = [t for t in other if decide_equal(o.attrs['center'], ch['rotm'] * ch['variants'][t]['cp'] + (ch['S'] + ch['E']) / 2)[0] is True]
+            hit = [t for t in other if de(o.attrs['center'], ch['rotm'] * ch['variants'][t]['cp'] + (ch['S'] + ch['E']) / 2)[0] is True]
             if hit and hit[0][1] is False:
                 probs4.append('sqrt(radicand) is taken on a path that has not excluded radicand ~ 0 (rounding can make it negative: NaN centre)')
             elif hit:
@@ -381,7 +394,7 @@ def _f65(ctx, mdl, large, sweep):
         if exp_theta is None:
             probs5.append('theta: the path does not decide the sign of u1.imag / u1.real')
         else:
-            ok, d = decide_equal(o.attrs['theta'], exp_theta)
+            ok, d = de(o.attrs['theta'], exp_theta)
             if ok is not True:
                 probs5.append('theta: ' + d)
         # ---- raw delta and adjustment
@@ -405,7 +418,7 @@ def _f65(ctx, mdl, large, sweep):
             if rawsign == '0':
                 feasible = False     # u1 == u2 means start == end, excluded by the constructor
             # is the path's own belief about sign(acos) consistent (acos >= 0)?
-            sgn_acos = _sign_of(facts['signs'], acos_d)
+            sgn_acos = _sign_of(facts['signs'], sb(acos_d))
             if not raw.is_const() and '+' not in sgn_acos:
                 feasible = False     # acos(.) > 0 whenever det(u1,u2) != 0: the path's own decisions contradict that
             if feasible:
@@ -414,7 +427,7 @@ def _f65(ctx, mdl, large, sweep):
                     k = -1
                 elif sweep and rawsign == '-':
                     k = 1
-                ok, d = decide_equal(o.attrs['delta'], raw + 360 * k)
+                ok, d = de(o.attrs['delta'], raw + 360 * k)
                 if ok is not True:
                     probs5.append('delta for sweep=%s large_arc=%s raw%s0: expected raw%+d*360: %s' % (sweep, large, {'+': '>', '-': '<'}[rawsign], k, d))
         results4.append(probs4)
